@@ -24,7 +24,7 @@ from trace import validate_traces
 
 def cases(ctx, maxdev, sample=None, rng=None):
     cfg = os.path.join(ctx.work, f"MC_QR_{maxdev}.cfg")
-    open(cfg, "w").write(f"SPECIFICATION Spec\nCONSTANT MaxDev = {maxdev}\nINVARIANT Export\nINVARIANT L_Universal\nINVARIANT L_Monotone\nINVARIANT L_ListOne\nCHECK_DEADLOCK FALSE\n")
+    open(cfg, "w").write(f"SPECIFICATION Spec\nCONSTANT MaxDev = {maxdev}\nINVARIANT Export\nINVARIANT L_Universal\nINVARIANT L_Monotone\nINVARIANT L_ListOne\nINVARIANT L_Restored\nCHECK_DEADLOCK FALSE\n")
     r = must_ok(run_tlc("MC_QR", cfg, workdir=ctx.work, workers=1, timeout=3000))
     ctx.add_tlc(r)
     if r.violated:
@@ -95,7 +95,7 @@ def run(ctx: Ctx) -> int:
     ctx.sample({"case": {k: obs[0]["case"][k] for k in ("db", "model", "op", "level")}, "expected": obs[0]["exp_sel"], "observed": obs[0]["sel"]})
     ctx.assume("databases and value pools of MC_QR.tla (5 instances, 3 patients; values chosen to separate case, '%', '_' and list / range semantics)",
                "pydicom configured as qrscp.py configures it (empty text values decode to None); the handler is called with an event object carrying what it reads")
-    return ctx.finish(rule="three databases x 2 information models x {C-FIND, C-GET/C-MOVE} x 4 levels x every identifier within 1 (all) / 2 (sampled in quick) keys of the plain identifier")
+    return ctx.finish(rule="four databases (one of them a re-store of an instance with fewer attributes) x 2 information models x {C-FIND, C-GET/C-MOVE} x 4 levels x every identifier within 1 (all) / 2 (sampled in quick) keys of the plain identifier")
 
 
 def db_contents(ctx):
